@@ -25,10 +25,17 @@ class Stats:
         g = self.counters.setdefault(group, {})
         g[key] = g.get(key, 0) + n
 
-    def account(self, pid, cs, out, classify=None, mode_key=""):
-        """Standard accounting of an Outcome.  Returns True if it executed."""
+    def account(self, pid, cs, out, classify=None, mode_key="", must_compile=False):
+        """Standard accounting of an Outcome.  Returns True if it executed.
+        must_compile: the property promises a program for every spec of this
+        class (C01, C02), so a refusal or crash is itself reportable."""
         self.evaluations += 1
         self.bump("status", out.status)
+        if must_compile and out.status in ("rejected", "crash"):
+            self.violations.append(C.violation(
+                pid, cs, [{"kind": "legal-spec-not-compiled", "error": out.message}],
+                "no program for a spec of the class the property quantifies over: %s on `%s`" % (
+                    out.message, "; ".join(e.text() for e in cs.spec.exprs))))
         if out.status == "rejected":
             self.bump("rejected_msgs", _short(out.message))
             return False
